@@ -11,7 +11,11 @@
     * reads      `d[k]`, `d.k` (`__getattr__` :131-138 = `self[attr]`, `KeyError` re-raised as
       `AttributeError`), `d[k1, k2]`, `d.keys()`.
   A failing operation leaves the heap as it was.  `AttributeError` is `Err.other` on the wire.
-  Attribute names are identifiers that do not start with `_` and are not attributes of `dict`.
+  Attribute names that start with `_` are private: `d._x = v` writes the instance dict, not the mapping (the instance dict
+  itself is not modelled).  A name that is an attribute of the CLASS (`keys`, `items`, `copy`, ... —
+  `shadowed`) is found by python's normal attribute lookup before `__getattr__` is asked: `d.keys` is the bound method
+  whatever `d['keys']` holds (`Out.method`), while `d.keys = v` and `del d.keys` still go to the item.
+  `d + other` is class-aware (`DA.addC`): for `Dict` (class 1) it is `tree_update`.
   A dangling handle cannot be written in Python; the model answers `Err.index` (the driver refuses
   such a line as `bad-op` before it gets here).
 -/
@@ -51,6 +55,20 @@ inductive Out (V : Type) where
   | val (v : V)
   | vals (vs : List V)
   | keys (ks : List String)
+  | method                      -- a bound method of the class (attribute lookup of a shadowed name)
+
+/-- public methods of `dict` -/
+def dictNames : List String :=
+  ["clear", "copy", "fromkeys", "get", "items", "keys", "pop", "popitem", "setdefault", "update", "values"]
+/-- public methods added by `dictattr` (src/pyg_base/_dictattr.py) -/
+def dictattrNames : List String := ["relabel", "rename"]
+/-- public methods added by `Dict` (src/pyg_base/_dict.py:16-170) -/
+def dictNames1 : List String := ["apply", "do", "if_none", "if_else"]
+
+/-- `k` is an attribute of the class (1 = `Dict`, otherwise `dictattr` or a bare subclass of it): normal attribute
+lookup finds it and `__getattr__` is never called -/
+def shadowed (cls : Nat) (k : String) : Bool :=
+  dictNames.contains k || dictattrNames.contains k || (cls == 1 && dictNames1.contains k)
 
 variable {V : Type}
 
@@ -74,17 +92,17 @@ def asAttr {α : Type} : Res α → Res α
   | .error .key => .error .other
   | r => r
 
-def step (heap : Heap V) : Op V → Res (Heap V × Out V)
+def step [TreeAdd V] (heap : Heap V) : Op V → Res (Heap V × Out V)
   | .new cls items => pure (alloc heap ⟨cls, setAll [] items⟩)
   | .copy h => do pure (alloc heap (← deref heap h))
   | .subK h k => do pure (alloc heap (subKey (← deref heap h) k))
   | .subKs h ks => do pure (alloc heap (subKeys (← deref heap h) ks))
   | .andKs h ks => do pure (alloc heap (andKeys (← deref heap h) ks))
-  | .add h o => do pure (alloc heap (add (← deref heap h) o))
+  | .add h o => do pure (alloc heap (← addC (← deref heap h) o))
   | .addH h g => do
       let d ← deref heap h
       let o ← deref heap g
-      pure (alloc heap (add d o.items))
+      pure (alloc heap (← addC d o.items))
   | .getL h ks => do pure (alloc heap (← getList (← deref heap h) ks))
   | .relabel h m => do pure (alloc heap (relabel (← deref heap h) m))
   | .setItem h k v => do
@@ -92,6 +110,8 @@ def step (heap : Heap V) : Op V → Res (Heap V × Out V)
       pure (heap.set h { d with items := set k v d.items }, .unit)
   | .setAttr h k v => do
       let d ← deref heap h
+      -- `__setattr__` (:140-144): a private name is an instance attribute, the mapping is not touched
+      if k.startsWith "_" then pure (heap.set h d, .unit) else
       pure (heap.set h { d with items := set k v d.items }, .unit)
   | .delItem h k => do
       let d ← deref heap h
@@ -100,16 +120,18 @@ def step (heap : Heap V) : Op V → Res (Heap V × Out V)
       let d ← deref heap h
       pure (heap.set h (← asAttr (delKey d k)), .unit)
   | .getItem h k => do pure (heap, .val (← getKey (← deref heap h) k))
-  | .getAttr h k => do pure (heap, .val (← asAttr (getKey (← deref heap h) k)))
+  | .getAttr h k => do
+      let d ← deref heap h
+      if shadowed d.cls k then pure (heap, .method) else pure (heap, .val (← asAttr (getKey d k)))
   | .getT h ks => do pure (heap, .vals (← getTuple (← deref heap h) ks))
   | .keys h => do pure (heap, .keys (keys (← deref heap h)))
 
 /-- the heap after an operation; a failing operation changes nothing -/
-def exec (heap : Heap V) (op : Op V) : Heap V :=
+def exec [TreeAdd V] (heap : Heap V) (op : Op V) : Heap V :=
   match step heap op with
   | .ok (heap', _) => heap'
   | .error _ => heap
 
-def run (ops : List (Op V)) : Heap V := ops.foldl exec []
+def run [TreeAdd V] (ops : List (Op V)) : Heap V := ops.foldl exec []
 
 end Pyg.DAHeap
